@@ -504,7 +504,7 @@ func RunC02(d *Driver) *Report {
 		var srcs []string
 
 		for i := 0; i < ntc; i++ {
-			of := GenOpts{Funcs: true, Any: true, Maps: true, Strings: true, NonAscii: true, Special: true, Builtins: i%2 == 0, Tests: i%4 == 0}
+			of := GenOpts{Funcs: true, Any: true, Maps: true, Strings: true, NonAscii: true, Special: true, Builtins: i%2 == 0, Tests: i%4 == 0, Exit: i%8 == 0, Read: i%8 == 1, Graphics: i%8 == 2}
 			srcs = append(srcs, NewProgGen(rng, of).Program())
 		}
 		hand := tcHandWritten()
@@ -525,7 +525,7 @@ func RunC02(d *Driver) *Report {
 				}
 			}
 		}
-		r.Rule += fmt.Sprintf(" | Type checker tie: %d accepted programs (generated with functions, any, maps, strings, every second one with built-ins, every fourth with tests; %d hand-written, one per typing rule incl. recursion) sent with the parser's function signatures and global types to Model/Check.lean (proved sound for the hypotheses of program_never_goes_wrong): %d lie in the typed fragment and %d of those are accepted by the checker; a rejection is a disagreement. Negative controls: %d requests with one global or result type corrupted, %d rejected", asked, len(hand), inFrag, okN, neg, negRej)
+		r.Rule += fmt.Sprintf(" | Type checker tie: %d accepted programs (generated with functions, any, maps, strings, with built-ins, tests, exit / panic, read and graphics switched on in turn; %d hand-written, one per typing rule incl. recursion) sent with the parser's function signatures and global types to Model/Check.lean (proved sound for the hypotheses of program_never_goes_wrong): %d lie in the typed fragment and %d of those are accepted by the checker; a rejection is a disagreement. Negative controls: %d requests with one global or result type corrupted, %d rejected", asked, len(hand), inFrag, okN, neg, negRej)
 	}
 	for _, w := range Corpus("C02") {
 		if strings.Contains(w.Src, "// host-only") {
